@@ -5,7 +5,7 @@ set -e
 export GOFLAGS=-mod=mod GOPROXY=off GOSUMDB=off GOTOOLCHAIN=local
 REPO=${VERIF_REPO:-/repo}
 OUT=$(realpath -m "$1"); shift
-H=/verif/harness
+H=${VERIF_HARNESS:-$(cd "$(dirname "$0")" && pwd)}
 OV=$(mktemp /tmp/verif-overlay.XXXXXX.json)
 trap 'rm -f $OV' EXIT
 python3 - "$REPO" "$H" > $OV <<'PY'
